@@ -1,6 +1,6 @@
-"""C06 - the recipe model is referentially consistent (one kernel: intermediate-preparation references)."""
-import os
-import scratch, kani_group, registry, mcheck, mir, smt, models
+"""C06 - the recipe model is referentially consistent."""
+import os, re, time
+import scratch, kani_group, registry, mcheck, mir, smt, models, analysis
 from mir import SV, Agg, Enum, Opaque, OpenAgg, VecVal
 
 
@@ -182,14 +182,16 @@ def check(run):
         "val >= 0 (the parser never produces a negative value; the function asserts it)",
     ]
     run.not_covered += [
-        "component index / back-link maintenance (ingredient(), resolve_reference, set_referenced_from): String names with unicase folding, growing vectors",
-        "non-empty sections / steps / text items, timers having a name or a quantity, mode switches through metadata events: need the parser in front of the event loop",
+        "step / text items and in_step (the item index is the index the handlers return), non-empty sections, mode switches through metadata events, "
+        "more than two earlier components of a kind: need the parser in front of the event loop or larger states",
     ]
     only = os.environ.get("VERIF_ONLY", "")
-    if only in ("", "M"):
+    nat = None
+    if only in ("", "M", "A"):
         import native
         nat = native.Native(scr)
         nat.build(log=os.path.join(run.logdir, "native-build.log"))
+    if only in ("", "M"):
         try:
             m_part(run, scr, nat)
         except mir.Unsupported as e:
@@ -198,6 +200,8 @@ def check(run):
         run.traces_validated += len(NUMBERING_CASES)
         if bad and not run.violations:
             run.violation("validation-vector step-numbering", "; ".join(bad[:2]), dict(engine="validation-vector", replay="step_numbers"))
+    if only in ("", "A"):
+        analysis.run_for(run, scr, nat, "C06")
     if only in ("", "K"):
         kani_group.run_group(run, scr, registry.select("C06", run.tier))
 
@@ -208,6 +212,10 @@ def replay(run, path):
     scr = scratch.Scratch()
     scr.copy_repo()
     scr.inject()
+    if obj.get("replay") == "structure":
+        nat = native.Native(scr)
+        nat.build()
+        return analysis.replay_structure(nat, "C06", path)
     if obj.get("replay") == "step_numbers":
         nat = native.Native(scr)
         nat.build()
